@@ -25,6 +25,7 @@ import (
 	"bufio"
 	"context"
 	"fmt"
+	"math/big"
 	"math/rand"
 	"os"
 	"strconv"
@@ -170,6 +171,16 @@ func c07GenQuery(rng *rand.Rand, w *bufio.Writer, idx string) {
 			tt = strconv.FormatInt(int64(1+rng.Intn(11))*1000000000+c07Nanos[rng.Intn(len(c07Nanos))], 10)
 		}
 	}
+	if rng.Intn(8) == 0 {
+		// bounds that int64 nanoseconds cannot hold (year 0001, just below MinInt64; just above MaxInt64,
+		// year 9999), and one far bound that they can (year 2200)
+		if rng.Intn(2) == 0 {
+			ft = []string{"-62135596800000000000", "-9223372036854775809", "253402300799000000000"}[rng.Intn(3)]
+		}
+		if rng.Intn(3) != 0 {
+			tt = []string{"253402300799000000000", "9223372036854775808", "7258118400000000000", "-62135596800000000000"}[rng.Intn(4)]
+		}
+	}
 	via := []string{"u", "s"}[rng.Intn(2)]
 	fmt.Fprintf(w, "q %s %s %d %d %s %s %s\n", idx, ord, from, limit, ft, tt, via)
 }
@@ -210,7 +221,9 @@ func c07Gen(rng *rand.Rand, tier string, w *bufio.Writer) {
 	fmt.Fprintln(w, "case 13p\nset e1 bytes 0 0 0 2000000000\nset e2 bytes 0 0 0 3000000000\nset e3 i64 97 0 0 1000000000\nset f1 bytes 0 0 0 0\nreload\npatchexp -\nq expire asc 0 0 - - u\nq expire desc 0 0 - - u\npatchexp -\nreload\npatchexp 6000000000\nq expire asc 0 0 - - u\nreload\npatchexp clear\nq expire asc 0 0 - - u\nq expire desc 0 0 - - u\nshiftexp\nq key asc 0 0 - - u")
 	// 14: ShiftMatching: first N of the key index, a window of a time index, everything
 	fmt.Fprintln(w, "case 14\nset k1 i64 97 1000000000 5000000000 0\nset k2 i64 98 2000000000 4000000000 3000000000\nset k3 str 1 3000000000 3000000000 0\nset k4 bytes 2 3000000000 0 1000000000\nset k5 i64 99 0 2000000000 0\nq created asc 0 0 - - u\nq key desc 0 0 - - u\nshiftmatch key desc 2 - -\nq key asc 0 0 - - u\nq created desc 0 0 - - u\nshiftmatch created asc 0 2000000000 3000000001\nq created asc 0 0 - - u\nq updated asc 0 0 - - u\nshiftmatch updated desc 0 - -\nq key asc 0 0 - - u")
-	for c := 15; c < cases; c++ {
+	// 15: window bounds outside the years 1677…2262 (valid timestamps, not representable as int64 nanoseconds)
+	fmt.Fprintln(w, "case 15\nset k1 i64 97 3000000000 3000000000 3000000000\nset k2 i64 98 5000000000 5000000000 0\nset k3 i64 99 7000000000 0 7000000000\nq created asc 0 0 - 253402300799000000000 u\nq created desc 0 0 -62135596800000000000 - s\nq created asc 0 0 4000000000 9223372036854775808 u\nq updated desc 0 0 -9223372036854775809 5000000000 u\nq created asc 0 0 253402300799000000000 - u\nq expire asc 0 0 - -62135596800000000000 u\nq expire desc 0 2 - 7258118400000000000 s\nq key asc 0 0 - 253402300799000000000 u\nshiftmatch created asc 0 4000000000 253402300799000000000\nq created asc 0 0 - - u")
+	for c := 16; c < cases; c++ {
 		persistent := c%3 == 0
 		if persistent {
 			fmt.Fprintf(w, "case %dp\n", c)
@@ -396,12 +409,17 @@ func c07OptTS(s string) (*timestamppb.Timestamp, bool) {
 	if s == "-" {
 		return nil, true
 	}
-	v, err := strconv.ParseInt(s, 10, 64)
-	if err != nil {
+	// nanoseconds since the epoch, of any size (years 0001…9999 are valid protobuf timestamps, int64
+	// nanoseconds only reach 1677…2262); an explicit zero bound is a real bound, not "absent"
+	v, ok := new(big.Int).SetString(s, 10)
+	if !ok {
 		return nil, false
 	}
-	// an explicit zero bound is a real bound (the Unix epoch), not "absent"
-	return &timestamppb.Timestamp{Seconds: v / 1000000000, Nanos: int32(v % 1000000000)}, true
+	sec, ns := new(big.Int).DivMod(v, big.NewInt(1000000000), new(big.Int)) // Euclidean: 0 <= ns < 1e9
+	if !sec.IsInt64() {
+		return nil, false
+	}
+	return &timestamppb.Timestamp{Seconds: sec.Int64(), Nanos: int32(ns.Int64())}, true
 }
 
 func c07Run(in *bufio.Scanner, w *bufio.Writer) {
